@@ -59,6 +59,12 @@ func ensureMountTargetExists(source, target string) error {
 	if err := os.MkdirAll(dir, 0755); err != nil {
 		return err
 	}
+	if !isFile {
+		// a symbolic link at the target (left in a writable mount by an earlier program) would redirect the mount
+		if f, err := os.Lstat(target); err == nil && f.Mode()&os.ModeSymlink != 0 {
+			return &os.PathError{Op: "mkdir", Path: target, Err: syscall.ELOOP}
+		}
+	}
 	if isFile {
 		if err := syscall.Mknod(target, 0755, 0); err != nil {
 			// double check if file exists
